@@ -2,6 +2,7 @@ import Nri.Model.LibMem
 import Nri.Proofs.LibMem
 import Nri.Proofs.LibMemInv
 import Nri.Proofs.LibMemCommit
+import Nri.Proofs.LibMemReplay
 import Nri.Gen.LibmemFacts
 /-!
 C06 — memory allocator operations are transactional; stale offers are rejected.
@@ -245,16 +246,19 @@ theorem every_operation_keeps_wf (s : St) (hw : WF s) :
 
 /-! ### committing a fresh offer = allocating directly -/
 
-/-- **Commit of a fresh offer gives the same zone and the same updates as `Allocate`.** In every
-well-formed state whose requests are all placed (the history invariant of `Props/C07`), for every
-request: if `GetOffer r` succeeds, committing the offer right away returns exactly the result -
-zone and update map - that `Allocate r` returns in that state.  (Proof: the offer carries the
-journal's update map of the same internal `allocate`; that map is exact, `Proofs/LibMemUpd`.)
-Equality of the resulting request lists is checked by the twin run, not proved. -/
+/-- **Commit of a fresh offer = `Allocate`.** In every well-formed state whose requests are all
+placed (the history invariant of `Props/C07`), for every request: if `GetOffer r` succeeds,
+committing the offer right away (a) returns exactly the result - zone and update map - that
+`Allocate r` returns in that state, and (b) leaves exactly the request list - ids, sizes, types,
+zones, hence the usage and free memory of every node set - that `Allocate r` leaves.
+(Proof: the offer carries the journal's update map of the same internal `allocate`; that map has
+unique keys and is exact, so `Commit`'s replay reproduces every zone: `Proofs/LibMemUpd`,
+`LibMemCommit`, `LibMemReplay`.)  Not covered: the ORDER of entries in the zone table. -/
 theorem commit_fresh_eq_allocate (s : St) (hw : WF s) (hp : Placed s) (r : Req) (o : Offer)
     (h : (s.GetOffer r).2 = .ok o) :
-    ((s.GetOffer r).1.Commit o).2 = (s.Allocate r).2 :=
-  commit_fresh_result_eq_allocate s hw hp r o h
+    ((s.GetOffer r).1.Commit o).2 = (s.Allocate r).2 ∧
+    ((s.GetOffer r).1.Commit o).1.reqs = (s.Allocate r).1.reqs :=
+  ⟨commit_fresh_result_eq_allocate s hw hp r o h, commit_fresh_reqs_eq_allocate s hw hp r o h⟩
 
 -- non-vacuity: an offer that displaces another request, committed, reports what Allocate reports
 example :
